@@ -305,6 +305,15 @@ def Writer.new (bufSize : Nat) (e : σ) (sink : Sink) : Writer σ :=
 
 /-! ## reader.rs -/
 
+/-- store `bs` at `buf[pos..pos+bs.length]` (the slice handed to the wrapped reader is
+`buf[pos..]`, and the reader never reports more than its length: nothing is written past the end) -/
+def storeAt (buf : Bytes) (pos : Nat) (bs : Bytes) : Bytes :=
+  (buf.take pos ++ bs ++ buf.drop (pos + bs.length)).take buf.length
+
+theorem storeAt_length (buf : Bytes) (pos : Nat) (bs : Bytes) : (storeAt buf pos bs).length = buf.length := by
+  simp only [storeAt, List.length_take, List.length_append, List.length_drop]
+  omega
+
 structure Reader (σ : Type) where
   buf : Bytes              -- `input_buffer` (its length is the buffer size)
   inputOffset : Nat
@@ -333,26 +342,34 @@ def Reader.copyToFront (r : Reader σ) : Option (Reader σ) :=
                       inputLen := r.inputLen - r.inputOffset, inputOffset := 0, bufAcc := r.bufAcc + 3 }
     else some { r with bufAcc := r.bufAcc + 2 }
 
-/-- store `bs` at `buf[at..at+bs.length]` -/
-def storeAt (buf : Bytes) (pos : Nat) (bs : Bytes) : Bytes :=
-  buf.take pos ++ bs ++ buf.drop (pos + bs.length)
+/-- the refill loop `while self.input_len < buffer.len() && !self.input_eof { self.input.read(..) }`
+of `read`: `some c` = the wrapped reader failed with `c` (`return Err(e)`).  One buffer access
+per evaluation of the condition, one per read. -/
+def Reader.fill (r : Reader σ) : Reader σ × Option Nat :=
+  if h : r.inputLen < r.buf.length ∧ r.eof = false then
+    match r.src.read (r.buf.length - r.inputLen) with
+    | (src', .error c) => ({ r with src := src', bufAcc := r.bufAcc + 2 }, some c)
+    | (src', .ok bs) =>
+      if hz : bs.length = 0 then
+        Reader.fill { r with src := src', eof := true, bufAcc := r.bufAcc + 2 }
+      else
+        Reader.fill { r with src := src', buf := storeAt r.buf r.inputLen bs, inputLen := r.inputLen + bs.length,
+                             bufAcc := r.bufAcc + 2 }
+  else ({ r with bufAcc := r.bufAcc + 1 }, none)
+termination_by (r.buf.length - r.inputLen) + (if r.eof then 0 else 1)
+decreasing_by
+  · simp [h.2]
+  · simp only [storeAt_length, h.2]
+    have := h.1
+    simp
+    omega
 
 /-- the loop of `CustomRead::read`; `cap` = `buf.len()` of the caller.  The loop runs while
 `output_offset == 0`, so every iteration starts with `avail_out = cap`. -/
 def Reader.readLoop (E : Enc σ) (cap : Nat) : Nat → Reader σ → Reader σ × Out (Except Err Bytes)
   | 0, r => (r, .livelock)
   | fuel + 1, r =>
-    -- refill
-    let refill : Reader σ × Option Nat :=
-      if r.inputLen < r.buf.length ∧ !r.eof then
-        match r.src.read (r.buf.length - r.inputLen) with
-        | (src', .error c) => ({ r with src := src', bufAcc := r.bufAcc + 2 }, some c)
-        | (src', .ok bs) =>
-          if bs.length = 0 then ({ r with src := src', eof := true, bufAcc := r.bufAcc + 2 }, none)
-          else ({ r with src := src', buf := storeAt r.buf r.inputLen bs, inputLen := r.inputLen + bs.length,
-                         bufAcc := r.bufAcc + 2 }, none)
-      else ({ r with bufAcc := r.bufAcc + 1 }, none)
-    match refill with
+    match r.fill with
     | (r1, some c) => (r1, .done (.error (.inner c)))
     | (r1, none) =>
       if r1.inputLen < r1.inputOffset then (r1, .panic)
@@ -431,17 +448,30 @@ decreasing_by
   simp only [List.length_drop]
   omega
 
+/-- the refill loop of the copy function (entered with `available_in == 0 && !eof`, after
+`next_in_offset = 0`): `while available_in < input_buffer.len() && !eof { r.read(&mut input_buffer[available_in..]) }` -/
+def Copy.fill (c : Copy σ) : Copy σ :=
+  if h : c.availableIn < c.ibuf.length ∧ c.eof = false then
+    match c.src.read (c.ibuf.length - c.availableIn) with
+    | (src', .error e) => { c with src := src', readErr := some (.inner e), eof := true }
+    | (src', .ok bs) =>
+      if hz : bs.length = 0 then Copy.fill { c with src := src', eof := true }
+      else Copy.fill { c with src := src', ibuf := storeAt c.ibuf c.availableIn bs, availableIn := c.availableIn + bs.length }
+  else c
+termination_by (c.ibuf.length - c.availableIn) + (if c.eof then 0 else 1)
+decreasing_by
+  · simp [h.2]
+  · simp only [storeAt_length, h.2]
+    have := h.1
+    simp
+    omega
+
 def Copy.loop (E : Enc σ) : Nat → Copy σ → Copy σ × Out (Except Err Nat)
   | 0, c => (c, .livelock)
   | fuel + 1, c =>
     -- refill
     let c1 : Copy σ :=
-      if c.availableIn = 0 ∧ !c.eof then
-        match c.src.read c.ibuf.length with
-        | (src', .error e) => { c with src := src', nextIn := 0, readErr := some (.inner e), availableIn := 0, eof := true }
-        | (src', .ok bs) =>
-          { c with src := src', nextIn := 0, ibuf := storeAt c.ibuf 0 bs, availableIn := bs.length,
-                   eof := if bs.length = 0 then true else c.eof }
+      if c.availableIn = 0 ∧ !c.eof then Copy.fill { c with nextIn := 0 }
       else c
     let op := if c1.availableIn = 0 then Op.finish else Op.process
     let input := (c1.ibuf.drop c1.nextIn).take c1.availableIn
